@@ -252,8 +252,8 @@ class Cluster:
         while a long-polling Fetch or a JoinGroup sits in purgatory), so a request
         behind an unanswered one waits in the connection's queue."""
         tr = ctx.tr
-        if not tr.server_open or not self.nodes[ctx.node].up or ctx.node in self.blackhole:
-            return               # (black-holed node: the connection stays open, nothing is ever answered)
+        if not tr.server_open or not self.nodes[ctx.node].up or ctx.node in self.blackhole or getattr(tr, "stuck", False):
+            return               # (black-holed node / stuck connection: it stays open, nothing is ever answered)
         q = tr.__dict__.setdefault("pending_reqs", [])
         if tr.__dict__.get("busy"):
             q.append(ctx)
@@ -301,8 +301,11 @@ class Cluster:
             self.loop.call_later(plan.delay_out, tr.server_close, ConnectionResetError("dropped"))
             return
         if plan.fault == "lose_reply":
+            # the broker never answers this request.  Kafka answers the requests of one connection strictly in order,
+            # so nothing queued behind it on this connection is answered either: the client runs into its request
+            # timeout and closes the connection (a reply cannot vanish from a TCP stream while later ones arrive)
             self.log.emit("Fault", kind="lose_reply", api=ctx.api, node=ctx.node, req=ctx.no, client=ctx.client_id)
-            self._next(tr)
+            tr.stuck = True
             return
         from aiokafka.protocol.types import Int32, TaggedFields
         hdr = Int32.encode(ctx.corr)
